@@ -145,6 +145,12 @@ func jsonScalar(n *world.Node, lex string, ietf bool) any {
 			return []any{nil}
 		}
 		return map[string]any{}
+	case "identityref":
+		// RFC 7951 6.8: the namespace-qualified form (module NAME, not prefix); mandatory when the identity is defined in
+		// another module than the leaf
+		if m := world.IdentityModuleOf(lex); ietf && m != "" && !strings.Contains(lex, ":") {
+			return m + ":" + lex
+		}
 	}
 	return lex
 }
